@@ -28,7 +28,7 @@ LEVEL = 'proof'
 
 
 def gen_cfg(rng, thorough):
-    kind = rng.choice(['GI', 'GI', 'IMEX'])
+    kind = rng.choice(['GI', 'GI', 'IMEX', 'IMEX', 'EXPL', 'MI'])
     nl = rng.choice([1, 2, 2, 3] if thorough else [1, 2, 2])
     dim = rng.choice([1, 2])
     nn = sorted([rng.choice([2, 3]) for _ in range(nl)], reverse=True)
@@ -41,6 +41,10 @@ def gen_cfg(rng, thorough):
         lv = dict(num_nodes=nn[l], quad_type=quad, dim=dim, QI=rng.choice(['IE', 'LU', 'MIN-SR-S', 'MIN-SR-NS', 'IEpar', 'TRAP']))
         if kind == 'GI':
             lv.update(lam=lam, c=c)
+        elif kind == 'EXPL':
+            lv.update(lam=tuple(x / 2 for x in lam), c=c, QE=rng.choice(['EE', 'PIC']))
+        elif kind == 'MI':
+            lv.update(lam1=lam, c1=c, lam2=lamE, c2=c, Q1=lv['QI'], Q2=rng.choice(['IE', 'LU', 'MIN-SR-S']))
         else:
             lv.update(lamI=lam, cI=c, lamE=lamE, muE=zero, cE=c, QE=rng.choice(['EE', 'PIC']))
         levels.append(lv)
@@ -86,7 +90,7 @@ def exact_part(ck, rng, thorough):
         dim = len(u0)
         posts = sorted([e for e in log if e['cb'] == 'post_step'], key=lambda e: e['time'])
         pres = {e['time']: e for e in log if e['cb'] == 'pre_step'}
-        key = (kind, len(cfg['levels']), cfg['num_procs'], tuple(l['QI'] for l in cfg['levels']), cfg['predict_type'], cfg['mssdc_jac'],
+        key = (kind, len(cfg['levels']), cfg['num_procs'], tuple((l.get('QI'), l.get('QE'), l.get('Q2')) for l in cfg['levels']), cfg['predict_type'], cfg['mssdc_jac'],
                str(cfg['nsweeps']), cfg['initial_guess'], cfg['residual_type'], L0.sweep.coll.quad_type, cfg['do_coll_update'])
         meta = {k: str(v) for k, v in cfg.items() if k != 'hooks'}
         if len(posts) != nsteps:
@@ -105,8 +109,8 @@ def exact_part(ck, rng, thorough):
                 ck.violation('step %d did not start from the previous step\'s end value' % sidx,
                              dict(meta, step=sidx, start=[str(v) for v in s0['u'][0]], prev_end=[str(v) for v in prev_end]), match={'kind': 'chain'})
             for x in range(dim):
-                lt = lam[x] + (lamE[x] if kind == 'IMEX' else 0)
-                ct = c[x] * (2 if kind == 'IMEX' else 1)
+                lt = {'GI': lam[x], 'EXPL': lam[x] / 2, 'IMEX': lam[x] + lamE[x], 'MI': lam[x] + lamE[x]}[kind]
+                ct = c[x] * (2 if kind in ('IMEX', 'MI') else 1)
                 Uc = er.collocation_scalar(Q, nodes, dt, e['time'], lt, ct, prev_end[x])
                 if L0.sweep.coll.right_is_node and not L0.sweep.params.do_coll_update:
                     end_c = Uc[-1]
